@@ -239,8 +239,8 @@ def _shadow_validate(mod, cparams, sctx, S, res):
         else:
             env[names[0][0]] = v
     ufuns = {k: FuncTable.from_json(v) for k, v in funcs.items()}
-    for k in sctx.uf_decl:
-        if k not in ufuns:          # not constrained on this path: same stand-in as the concrete run uses
+    for k in cctx.uf_decl:
+        if k not in ufuns:          # not constrained on this path: the stand-in the concrete run has used (Ctx.uf)
             from .ctx import default_uf
             ufuns[k] = default_uf
     bad = None
